@@ -75,6 +75,10 @@ from nemoguardrails.utils import console, new_event_dict, new_readable_uuid, new
 
 log = logging.getLogger(__name__)
 
+# How many instances of an activated flow may fail in a row before reaching their
+# first waiting statement until the flow is no longer restarted
+MAX_IMMEDIATE_FLOW_RESTARTS = 10
+
 
 def initialize_state(state: State) -> None:
     """
@@ -1518,25 +1522,34 @@ def _abort_flow(
         _get_readable_flow_state_hierarchy(state, flow_state.uid),
     )
 
-    # Restart the flow if it is an activated flow. A flow that failed before it ever
-    # reached a waiting statement would fail again right away, so restarting it
-    # would end in an infinite loop.
+    # Restart the flow if it is an activated flow
     if (
         not deactivate_flow
         and flow_state.activated > 0
         and not flow_state.new_instance_started
-        and flow_state.has_started
     ):
-        event = flow_state.start_event(matching_scores)
+        reference_flow_state = flow_state
         if (
             flow_state.parent_uid
             and state.flow_states[flow_state.parent_uid].flow_id == flow_state.flow_id
         ):
-            event.arguments.update({"source_flow_instance_uid": flow_state.parent_uid})
+            reference_flow_state = state.flow_states[flow_state.parent_uid]
+
+        # An instance that failed before it ever reached a waiting statement may just
+        # have lost an action conflict, but a flow that keeps failing right away would
+        # be restarted forever: give up after a number of such failures in a row.
+        if flow_state.has_started:
+            reference_flow_state.immediate_failures = 0
         else:
-            event.arguments.update({"source_flow_instance_uid": flow_state.uid})
-        _push_left_internal_event(state, event)
-        flow_state.new_instance_started = True
+            reference_flow_state.immediate_failures += 1
+
+        if reference_flow_state.immediate_failures <= MAX_IMMEDIATE_FLOW_RESTARTS:
+            event = flow_state.start_event(matching_scores)
+            event.arguments.update(
+                {"source_flow_instance_uid": reference_flow_state.uid}
+            )
+            _push_left_internal_event(state, event)
+            flow_state.new_instance_started = True
 
 
 def _finish_flow(
